@@ -226,8 +226,8 @@ def _s2i(prop, out, m):
             sig = "C16:overalloc:" + "+".join(fns)
             desc = "%s on the %d-byte input %s asks for more memory than the specification allows (bound %d bytes): %s" % (
                 ",".join(fns), len(c["b"]), bytes(c["b"]).hex(), c.get("mb", 0),
-                json.dumps({k: (v.get("mem") or {kk: vv for kk, vv in v.items() if kk.startswith("mem_")} or v.get("msg", "")[-120:])
-                            for k, v in obs.items()})[:300])
+                json.dumps({k: (v if k.startswith("mem:") else {"fn": v.get("fn"), "refused_above_1GiB": v.get("overalloc")})
+                            for k, v in obs.items() if k.startswith(("mem:", "crash_"))})[:300])
     elif kind == "wprefix" and viol == ["wprefix.canon"] and c["canon"] and \
             _is_f7_sizes(c["p"], C.le_n(c["n"])) and obs["big"].get("canon") is False:
         sig = prop + F7
